@@ -246,12 +246,25 @@ func checkC02(c *Ctx) {
 	}
 	// (4) the C04 operator tables (integers and float64): every function called with sample operands in both modes
 	{
-		load := func(src string, opt bool) *goat.VM {
+		load1 := func(src string, opt bool) (*goat.VM, error) {
 			vm := goat.New(goat.WithStdout(&bytes.Buffer{}))
-			if err := vm.VerifLoad(mapFS(map[string]string{"main/main.go": src}), "main", opt, nil); err != nil {
-				fatalf("operator table package does not load (optimize=%v): %v", opt, firstLine(err.Error()))
+			err := vm.VerifLoad(mapFS(map[string]string{"main/main.go": src}), "main", opt, nil)
+			return vm, err
+		}
+		// the package has to load with the optimizer off (otherwise the table itself is wrong: machinery); when it
+		// then fails to load with the optimizer on, the optimizer changed the outcome of loading, which is a violation
+		loadPair := func(src string) (on, off *goat.VM) {
+			off, err := load1(src, false)
+			if err != nil {
+				fatalf("operator table package does not load (optimize=false): %v", firstLine(err.Error()))
 			}
-			return vm
+			on, err = load1(src, true)
+			if err != nil {
+				c.violate(hashKey("c04load|"+firstLine(err.Error())), "the operator table package loads with the optimizer off and fails with it on: "+firstLine(err.Error()),
+					map[string]any{"source": src, "error_optimizer_on": err.Error()})
+				return nil, off
+			}
+			return on, off
 		}
 		callAll := func(vm *goat.VM, name string, argSets [][]goat.Value) c02Obs {
 			o := c02Obs{Out: "", Vals: []string{}, Ok: true}
@@ -288,9 +301,9 @@ func checkC02(c *Ctx) {
 		}
 		ifns := c04Functions(c, r)
 		isrc := c04Source(ifns)
-		ion, ioff := load(isrc, true), load(isrc, false)
+		ion, ioff := loadPair(isrc)
 		step := c.pick(3, 1)
-		for i := 0; i < len(ifns); i += step {
+		for i := 0; ion != nil && i < len(ifns); i += step {
 			f := ifns[i]
 			lo, hi := typeRange(f.T)
 			var vals []goat.Value
@@ -307,12 +320,15 @@ func checkC02(c *Ctx) {
 		for _, f := range ffns {
 			sb.WriteString(f.Src + "\n\n")
 		}
-		fon, foff := load(sb.String(), true), load(sb.String(), false)
+		fon, foff := loadPair(sb.String())
 		var fvals []goat.Value
 		for _, x := range []float64{0, math.Copysign(0, -1), 1, -2.5, 0.125, 1024, math.Inf(1), math.Inf(-1), math.NaN()} {
 			fvals = append(fvals, goat.Float64(x))
 		}
 		for _, f := range ffns {
+			if fon == nil {
+				break
+			}
 			vals := fvals
 			if f.From != "" {
 				vals = nil
